@@ -197,7 +197,10 @@ func genSchedule(r *Rng, id int, kind string) *sched {
 			} else if i == k {
 				s.ep[i] = (farFuture/s.spe + 1) + e + uint64(r.Intn(2)) // wraps to (e or e+1)*spe
 			} else {
-				s.ep[i] = s.ep[i-1] + uint64(r.Intn(2))
+				s.ep[i] = s.ep[i-1]
+				if s.ep[i] < farFuture {
+					s.ep[i] += uint64(r.Intn(2))
+				}
 				if r.Chance(40) {
 					s.ep[i] = farFuture
 				}
